@@ -907,6 +907,22 @@ def gen_adapters_mixed(rng, knobs=None):
     return opts, prog
 
 
+def gen_adapters_cut(rng, knobs=None):
+    """interactions driven through the Rx (v3) / ReactiveX (v4) client and handler adapters, with the connection lost in the middle:
+    every observable / awaitable the application holds must be failed (not left hanging), producers cancelled, on_close once"""
+    opts, prog = gen_adapters(rng, knobs)
+    opts = dict(opts, mode='tcp', keepalive_ms=100, lifetime_ms=100000)
+    body = [st for st in prog if st[0] != 'finish']
+    k = rng.randrange(3, max(4, len(body)))
+    how = rng.choice(['eof', 'eof', 'error', 'close'])
+    src = rng.choice(['c', 's'])
+    tail = [['deliver_nosettle', 'c', rng.choice([1, 7, 30, None])], ['deliver_nosettle', 's', rng.choice([1, 7, 30, None])]]
+    if rng.random() < 0.4:
+        tail.append(['settle'])
+    tail.append(['cut', src, how] if how != 'close' else ['close', src])
+    return opts, body[:k] + tail + [['settle'], ['advance', 450], ['settle'], ['snapshot', 'final']]
+
+
 def gen_tlc(rng, knobs=None):
     """schedules proposed by the specification: behaviours of the design model RSocketMC.tla produced by `tlc -simulate` are
     projected onto driver primitives (knobs: file = JSON list of {kind, init, haspub, lib, actions:[[name, args...]...]}).
